@@ -73,8 +73,19 @@ impl<'a, K, V> VacantEntry<'a, K, V> {
 }
 impl<'a, K, V> OccupiedEntry<'a, K, V> {
     pub open spec fn m(&self) -> Map<K, V> { self.map@ }
+    /// what the map will hold when the entry is dropped
+    #[verifier::prophetic]
+    pub open spec fn fin(&self) -> Map<K, V> { final(self.map)@ }
     #[verifier::external_body]
     pub fn get(&self) -> (r: &V) requires self.m().contains_key(self.key) ensures *r == self.m()[self.key]
+    { unimplemented!() }
+    /// the value under the key may be changed through the reference; nothing else changes
+    #[verifier::external_body]
+    pub fn get_mut(&mut self) -> (r: &mut V)
+        requires old(self).m().contains_key(old(self).key)
+        ensures *r == old(self).m()[old(self).key], final(self).key == old(self).key,
+            final(self).m() == old(self).m().insert(old(self).key, *final(r)),
+            final(self).fin() == old(self).fin(),
     { unimplemented!() }
 }
 
@@ -114,6 +125,9 @@ impl DynBox {
     pub fn new<T: DynEq>(t: T) -> (r: DynBox) ensures r.val() == t.val() { unimplemented!() }
     #[verifier::external_body]
     pub fn dyn_eq<T: DynEq>(&self, other: &T) -> (r: bool) ensures r == (self.val() == other.val()) { unimplemented!() }
+    /// `*a != *b` on two boxed values (PartialEq for dyn DynEq)
+    #[verifier::external_body]
+    pub fn ne_box(&self, other: &DynBox) -> (r: bool) ensures r == (self.val() != other.val()) { unimplemented!() }
 }
 pub trait DynEq { spec fn val(&self) -> int; }
 #[verifier::external_body]
@@ -368,13 +382,89 @@ impl<Db: Database> InternalStorage<Db> {
 }
 
 // ---- Storage: the public entry points forward to the above ---------------------------
-pub struct DependencyStack { p: core::marker::PhantomData<u8> }
+// DependencyStack(RefCell<Vec<TrackedDependencies>>): the RefCell is represented by unique
+// access (`&self` -> `&mut self`, `self.0.borrow_mut()` / `self.0.borrow()` -> `self.0`): exact for
+// one thread; a re-entrant borrow (which would panic) cannot happen in the functions below, none
+// of which calls out while it holds the borrow
+//@item rel=crates/pico/src/dependency.rs kind=struct name=DependencyStack prefix="pub" sub="RefCell<Vec<TrackedDependencies>>=>Vec<TrackedDependencies>"
+pub open spec fn recorded(top: TrackedDependencies, old_top: TrackedDependencies, dependency: Dependency, time_updated: Epoch) -> bool {
+    &&& top.max_time_updated.t() == (if time_updated.t() >= old_top.max_time_updated.t() { time_updated.t() } else { old_top.max_time_updated.t() })
+    &&& top.dependencies@.len() > 0 && top.dependencies@.last().node_to == dependency.node_to
+        && top.dependencies@.last().time_verified_or_updated == dependency.time_verified_or_updated
+    &&& top.derived_node_id == old_top.derived_node_id
+}
+impl DependencyStack {
+//@fn rel=crates/pico/src/dependency.rs name=push_if_not_empty within="impl DependencyStack" vis=pub serves=C01,C02
+//@hsub "&self," => "&mut self,"
+//@sub "self\.0\.borrow_mut\(\)\.last_mut\(\)" => "self.0.last_mut()" n=1
+//@sub "entry\.push\(dependency, time_updated\)" => "entry.td_push(dependency, time_updated)" n=1
+//@contract
+        ensures
+            final(self).0@.len() == old(self).0@.len(),
+            // the innermost running memoized function records the dependency; outer ones and
+            // an empty stack (a top-level call) are untouched
+            old(self).0@.len() > 0 ==> recorded(final(self).0@.last(), old(self).0@.last(), dependency, time_updated)
+                && final(self).0@.drop_last() == old(self).0@.drop_last(), //@O C01.O-7_read_is_recorded_in_the_innermost_running_function
+            old(self).0@.len() == 0 ==> final(self).0@ == old(self).0@,
+//@end
+//@fn rel=crates/pico/src/dependency.rs name=is_empty within="impl DependencyStack" vis=pub ret=r serves=C01
+//@sub "self\.0\.borrow\(\)\.is_empty\(\)" => "self.0.is_empty()" n=1
+//@contract
+        ensures r == (self.0@.len() == 0),
+//@end
+//@fn rel=crates/pico/src/dependency.rs name=leave within="impl DependencyStack" vis=pub ret=r serves=C01
+//@rw R2
+//@hsub "&self" => "&mut self"
+//@sub "self\.0\s*\.borrow_mut\(\)\s*\.pop\(\)" => "self.0.pop()" n=1
+//@contract
+        // "Leave must be called after enter"
+        requires old(self).0@.len() > 0,
+        ensures r == old(self).0@.last(), final(self).0@ == old(self).0@.drop_last(), //@O C01.O-7_leave_hands_back_what_was_recorded
+//@end
+}
 #[verifier::reject_recursive_types(Db)]
 pub struct Storage<Db: Database> {
     pub dependency_stack: DependencyStack,
     pub internal: InternalStorage<Db>,
 }
+/// `source_node.value.as_ref().as_any().downcast_ref::<T>().expect(..)`: the stored value at its type
+#[verifier::external_body]
+pub fn downcast_value<'a, T>(node: &'a SourceNode) -> &'a T { unimplemented!() }
 impl<Db: Database> Storage<Db> {
+//@fn rel=crates/pico/src/database.rs name=register_dependency_in_parent_memoized_fn within="impl<Db: Database> Storage<Db>" vis=pub serves=C01,C02
+//@hsub "&self," => "&mut self,"
+//@contract
+        ensures
+            final(self).internal == old(self).internal,
+            final(self).dependency_stack.0@.len() == old(self).dependency_stack.0@.len(),
+            // the dependency is recorded as verified NOW, with the time the node was last updated
+            old(self).dependency_stack.0@.len() > 0 ==> recorded(final(self).dependency_stack.0@.last(), old(self).dependency_stack.0@.last(),
+                    Dependency { node_to: node, time_verified_or_updated: old(self).internal.current_epoch }, time_updated)
+                && final(self).dependency_stack.0@.drop_last() == old(self).dependency_stack.0@.drop_last(), //@O C01.O-7_dependency_recorded_as_verified_now
+//@end
+//@fn rel=crates/pico/src/database.rs name=get_impl within="impl<Db: Database> Storage<Db>" vis=pub ret=r serves=C01
+//@rw R2
+//@inline rel=crates/pico/src/database.rs name=register_dependency_in_parent_memoized_fn within="impl<Db: Database> Storage<Db>"
+//@hsub "&self," => "&mut self,"
+//@hsub "-> Option<&T>" => "-> Option<&T>"
+//@sub "source_node\s*\.value\s*\.as_ref\(\)\s*\.as_any\(\)\s*\.downcast_ref::<T>\(\)\s*\.unwrap\(\)" => "downcast_value::<T>(source_node)" n=1
+//@contract
+        requires old(self).internal.wf(),
+        ensures
+            final(self).internal == old(self).internal,
+            (r is Some) == old(self).internal.has(key),
+            // C01: EVERY read of a source by a running memoized function is recorded as a
+            // dependency of that function, with the source's time of last change
+            old(self).internal.has(key) && old(self).dependency_stack.0@.len() > 0 ==>
+                recorded(final(self).dependency_stack.0@.last(), old(self).dependency_stack.0@.last(),
+                    Dependency { node_to: NodeKind::Source(key), time_verified_or_updated: old(self).internal.current_epoch },
+                    old(self).internal.node(key).time_updated), //@O C01.O-7_read_of_a_present_source_is_recorded
+            // ... including the read of a source that is ABSENT (its later first write must
+            // invalidate the reader)
+            !old(self).internal.has(key) && old(self).dependency_stack.0@.len() > 0 ==>
+                final(self).dependency_stack.0@.last().dependencies@.len() > 0
+                && final(self).dependency_stack.0@.last().dependencies@.last().node_to == NodeKind::Source(key), //@O C01.O-7b_read_of_an_absent_source_is_recorded
+//@end
     // assumed: panics when a memoized function is running, no effect otherwise
     #[verifier::external_body]
     fn assert_empty_dependency_stack(&self) { unimplemented!() }
@@ -536,6 +626,123 @@ pub open spec fn stale_source_dep<Db: Database>(s: &InternalStorage<Db>, dep: De
                 && (#[trigger] dependencies@[j]).time_verified_or_updated != db.storage_spec().internal.current_epoch
                 && stale_source_dep(&db.storage_spec().internal, dependencies@[j]) ==> any_found,
             any_found ==> exists|j: int| 0 <= j < any_it.index@ && (#[trigger] dependencies@[j]).time_verified_or_updated != db.storage_spec().internal.current_epoch,
+//@end
+
+// =====================================================================================
+// Derived-node side, MUTATING part: what re-executing or creating a node does to the storage
+// (execute_memoized_function.rs: update_derived_node, create_derived_node)
+// =====================================================================================
+// These functions mutate the storage behind `&Db` (dashmap / boxcar interior mutability).
+// They are verified with the database REPRESENTED BY ITS STORAGE, passed by `&mut`
+// (`db.get_storage()` is the identity): a model that is exact for one thread, which is the
+// only way pico is used (Storage is not Sync; the locks inside dashmap/boxcar are never
+// contended). insert_dependencies / insert_derived_node are inlined (R11) so that the borrow
+// checker sees the same disjoint-field accesses the interior-mutability code performs.
+/// running the user function with dependency tracking: may create / update OTHER nodes
+/// (nested memoized calls), never the node being computed (cycles panic), never removes
+/// anything, and the node and dependency stores only grow
+#[verifier::external_body]
+pub fn invoke_with_dependency_tracking<Db: Database>(db: &mut Storage<Db>, derived_node_id: DerivedNodeId, inner_fn: InnerFn<Db>)
+    -> (r: Option<(DynBox, TrackedDependencies)>)
+    requires old(db).internal.dwf(),
+    ensures
+        final(db).internal.dwf(),
+        final(db).internal.dhas(derived_node_id) == old(db).internal.dhas(derived_node_id),
+        old(db).internal.dhas(derived_node_id) ==> final(db).internal.drev(derived_node_id) == old(db).internal.drev(derived_node_id),
+        forall|i: int| 0 <= i < old(db).internal.derived_nodes@.len() ==> #[trigger] final(db).internal.derived_nodes@[i] == old(db).internal.derived_nodes@[i],
+        final(db).internal.derived_nodes@.len() >= old(db).internal.derived_nodes@.len(),
+        final(db).internal.current_epoch == old(db).internal.current_epoch,
+{ unimplemented!() }
+
+impl<Db: Database> InternalStorage<Db> {
+    /// value token of the node a revision points at
+    pub open spec fn dval(&self, id: DerivedNodeId) -> int { self.derived_nodes@[self.drev(id).node_index.idx as int].value.val() }
+}
+
+//@fn rel=crates/pico/src/execute_memoized_function.rs name=update_derived_node vis=pub ret=r serves=C02,C03
+//@rw R1 R2
+//@hsub "db: &Db," => "db: &mut Storage<Db>,"
+//@hsub "prev_value: &dyn DynEq," => "prev_value: &DynBox,"
+//@sub "db\s*\.get_storage\(\)" => "db" n=*
+//@sub "\*prev_value != \*value" => "prev_value.ne_box(&value)" n=1
+//@inline rel=crates/pico/src/database.rs name=insert_dependencies within="impl<Db: Database> InternalStorage<Db>" recv="db.internal"
+//@inline rel=crates/pico/src/database.rs name=insert_derived_node within="impl<Db: Database> InternalStorage<Db>" recv="db.internal"
+//@contract
+    requires
+        old(db).internal.dwf(), old(db).internal.dhas(derived_node_id),
+    ensures
+        final(db).internal.dhas(derived_node_id),
+        // C02 backdating / C03 stability: a re-execution that produces an EQUAL value leaves
+        // the node where it is (references into it stay valid) and keeps its time_updated, so
+        // that dependents are not re-executed; only the dependency list is replaced
+        r.0 is ReusedMemoizedValue ==> final(db).internal.drev(derived_node_id).node_index == old(db).internal.drev(derived_node_id).node_index
+            && final(db).internal.drev(derived_node_id).time_updated == old(db).internal.drev(derived_node_id).time_updated, //@O C02+C03.O-6_equal_value_keeps_node_and_time_updated
+        // a changed value is stored in a NEW node (the old one is not overwritten)
+        r.0 is Recalculated ==> final(db).internal.drev(derived_node_id).node_index.idx >= old(db).internal.derived_nodes@.len(), //@O C01+C03.O-6_changed_value_goes_to_a_new_node
+        // time_verified is not touched here
+        final(db).internal.drev(derived_node_id).time_verified == old(db).internal.drev(derived_node_id).time_verified,
+        final(db).internal.dwf(),
+//@before "let mut occupied ="
+            let ghost s1 = db.internal;
+//@before "(did_recalculate, tracked_dependencies.max_time_updated)"
+            proof {
+                // `occupied` is not used any more: the map is the old one with this node's revision replaced
+                assert(db.internal.derived_node_dependencies@.len() > dependency_index.idx);
+                assert forall|id2: DerivedNodeId| #[trigger] occupied.m().contains_key(id2) implies
+                    occupied.m()[id2].node_index.idx < db.internal.derived_nodes@.len()
+                    && occupied.m()[id2].dependency_index.idx < db.internal.derived_node_dependencies@.len() by {
+                    if id2 != derived_node_id { assert(s1.dhas(id2)); }
+                }
+            }
+//@end
+
+/// `invoke_with_dependency_tracking(..).expect("InnerFn call cannot fail for a new derived node")`:
+/// the generated wrapper returns None only when a parameter is missing from the storage,
+/// which cannot be the case for a call that is being made right now (pico invariant, assumed)
+pub uninterp spec fn inner_fn_succeeds<Db: Database>(db: &Storage<Db>, id: DerivedNodeId) -> bool;
+#[verifier::external_body]
+pub fn invoke_for_new_node<Db: Database>(db: &mut Storage<Db>, derived_node_id: DerivedNodeId, inner_fn: InnerFn<Db>)
+    -> (r: Option<(DynBox, TrackedDependencies)>)
+    requires old(db).internal.dwf(),
+    ensures
+        inner_fn_succeeds(old(db), derived_node_id) ==> r is Some,
+        final(db).internal.dwf(),
+        final(db).internal.dhas(derived_node_id) == old(db).internal.dhas(derived_node_id),
+        final(db).internal.derived_nodes@.len() >= old(db).internal.derived_nodes@.len(),
+        final(db).internal.current_epoch == old(db).internal.current_epoch,
+{ unimplemented!() }
+
+//@fn rel=crates/pico/src/execute_memoized_function.rs name=create_derived_node vis=pub ret=r serves=C01,C02
+//@rw R1 R2
+//@hsub "db: &Db," => "db: &mut Storage<Db>,"
+//@sub "db\s*\.get_storage\(\)" => "db" n=*
+//@sub "invoke_with_dependency_tracking\(db, derived_node_id, inner_fn\)" => "invoke_for_new_node(db, derived_node_id, inner_fn)" n=1
+//@inline rel=crates/pico/src/database.rs name=insert_derived_node within="impl<Db: Database> InternalStorage<Db>" recv="db.internal"
+//@inline rel=crates/pico/src/database.rs name=insert_dependencies within="impl<Db: Database> InternalStorage<Db>" recv="db.internal"
+//@inline rel=crates/pico/src/database.rs name=insert_derived_node_revision within="impl<Db: Database> InternalStorage<Db>" recv="db.internal"
+//@sub "db\.internal\.derived_node_id_to_revision\.insert\(" => "db.internal.derived_node_id_to_revision.insert_mut(" n=1
+//@contract
+    requires
+        old(db).internal.dwf(), inner_fn_succeeds(old(db), derived_node_id),
+    ensures
+        // a freshly computed node: recorded as computed, with the newest time any of its
+        // dependencies was updated, verified now, pointing at a node of its own
+        r.0 is Recalculated,
+        final(db).internal.dhas(derived_node_id)
+            && final(db).internal.drev(derived_node_id).time_updated == r.1
+            && final(db).internal.drev(derived_node_id).time_verified == final(db).internal.current_epoch, //@O C01+C02.O-6_new_node_is_stamped_with_its_dependencies_and_verified_now
+        final(db).internal.current_epoch == old(db).internal.current_epoch,
+        final(db).internal.dwf(),
+//@before "let node_index ="
+    let ghost s1 = db.internal;
+//@after "db.internal.derived_node_id_to_revision.insert_mut("
+    proof {
+        assert forall|id2: DerivedNodeId| #[trigger] db.internal.dhas(id2) implies
+            db.internal.drev(id2).node_index.idx < db.internal.derived_nodes@.len()
+            && db.internal.drev(id2).dependency_index.idx < db.internal.derived_node_dependencies@.len() by {
+            if id2 != derived_node_id { assert(s1.dhas(id2)); }
+        }
+    }
 //@end
 
 } // verus!
